@@ -1040,6 +1040,34 @@ def kwargs_marker_probe(ctx, rng):
             ctx.violation(C_STATS, dict(what="mean-curve peak marker of an object with find_peaks_kwargs={'width': 3}", object_kind=kind, distribution=d,
                                         drawn=[(m[1], m[2]) for m in marks], object_mean_curve_peak=[float(want[0]), float(want[1])],
                                         spike_frequency=float(freq[k_spike])), seam="plot_single_panel_hvsr_curves")
+        if kind == "T":
+            # the pre/post-rejection figure of the same object (one window rejected): both panels show the object's own peaks and statistics,
+            # i.e. peaks picked with the object's find_peaks options -- before rejection = the object with every window accepted
+            obj.valid_window_boolean_mask[0] = False
+            obj.valid_peak_boolean_mask[0] = False
+            _, recs = gen_records(rng, obj.n_curves)
+            allv = copy.deepcopy(obj)
+            allv.valid_window_boolean_mask = np.ones(obj.n_curves, dtype=bool)
+            allv.valid_peak_boolean_mask = np.ones(obj.n_curves, dtype=bool)
+            exp_pre = expect_panel(allv, "T", dict(PRE_OPTS, distribution_mc=d, distribution_fn=d))
+            exp_post = expect_panel(obj, "T", dict(POST_OPTS, distribution_mc=d, distribution_fn=d))
+            try:
+                with quiet():
+                    fig, axs = pp.plot_pre_and_post_rejection(recs, obj, distribution_mc=d, distribution_fn=d)
+                got = dict(pre=canon_axes(axs[1])[0], post=canon_axes(axs[3])[0])
+            except Exception as e:  # noqa
+                got = dict(error=f"{type(e).__name__}: {str(e)[:100]}")
+            plt.close("all")
+            ctx.supporting["excluding_kwargs_prepost_cases"] = ctx.supporting.get("excluding_kwargs_prepost_cases", 0) + 1
+            if exp_pre[0] == "ok" and exp_post[0] == "ok":
+                for name, exp in (("pre", exp_pre[1]), ("post", exp_post[1])):
+                    want_marks = [a for a in exp if a[0] in ("peakMeanCurve", "peakIndividualValid", "peakIndividualInvalid")]
+                    got_marks = [a for a in got.get(name, []) if a[0] in ("peakMeanCurve", "peakIndividualValid", "peakIndividualInvalid")]
+                    if "error" in got or sorted(map(repr, want_marks)) != sorted(map(repr, got_marks)):
+                        ctx.violation(C_STATS, dict(what=f"peak markers of the {name}-rejection panel of an object with find_peaks_kwargs={{'width': 3}}",
+                                                    distribution=d, drawn=got_marks, object_accessors=want_marks, error=got.get("error"),
+                                                    spike_frequency=float(freq[k_spike])), seam="plot_pre_and_post_rejection")
+                        break
 
 
 def run(ctx):
